@@ -107,6 +107,10 @@ def script_text(spec: Spec, variant: int, dofile: str, gates: bool = False) -> s
                 continue
             if act == "set":
                 L.append(': > "$RV_FLAGS/%s"; vgate n "set:%s $1"' % (flag, flag))
+            elif act == "ask":
+                # the script parks; before it goes on the harness performs the scenario's environment action of that name
+                # (e.g. the user edits a source at exactly this moment), once
+                L.append('vgate p "ask:%s $1"' % flag)
             elif act == "sleep":
                 L.append('vgate p "sleep:%s $1"' % flag)   # a long piece of work: outlasts that many timer expiries
             else:
